@@ -154,8 +154,7 @@ class DistributedUniformWithReplacementSampler(Sampler):
                 < self.sample_rate
             )
             selected_examples = mask.nonzero(as_tuple=False).reshape(-1)
-            if len(selected_examples) > 0:
-                yield indices[selected_examples]
+            yield indices[selected_examples]
 
     def __len__(self) -> int:
         """
